@@ -70,7 +70,7 @@ func TestC15(t *testing.T) {
 		for cp := 1; cp <= 3; cp++ {
 			for _, exp := range []bool{false, true} {
 				for _, sy := range []bool{true, false} {
-					variants = append(variants, variant{pol, cp, exp, sy})
+					variants = append(variants, variant{pol, cp, exp, sy, false})
 				}
 			}
 		}
@@ -82,7 +82,7 @@ func TestC15(t *testing.T) {
 	for _, pol := range []string{"lru", "lfu", "slru", "tinylfu"} {
 		for _, cp := range []int{99, 100, 101, 250} {
 			for _, sy := range []bool{true, false} {
-				variants = append(variants, variant{pol, cp, false, sy})
+				variants = append(variants, variant{pol, cp, false, sy, false})
 			}
 		}
 	}
@@ -162,7 +162,11 @@ func TestC15(t *testing.T) {
 	var rv []variant
 	for _, pol := range []string{"lru", "lfu", "slru", "tinylfu"} {
 		for _, cp := range caps {
-			rv = append(rv, variant{pol, cp, true, true}, variant{pol, cp, false, false})
+			rv = append(rv, variant{pol, cp, true, true, false}, variant{pol, cp, false, false, false})
+			if cp <= 11 {
+				// a negative expiry is "no expiry", like zero: entries are never stamped and never expire
+				rv = append(rv, variant{pol, cp, false, true, true})
+			}
 		}
 	}
 	for vi, v := range rv {
